@@ -6,7 +6,7 @@ RULE = ("family of 34 function-pointer types around `fn(i32, &u8) -> i64`, each 
         "parameter and in the return, unit return, unsafe, extern \"C\", unsafe extern \"C\", unsafe extern \"system\", and three pairs of types whose names differ only in the module path: ma::Rs / mb::Rs as return, &ma::Cfg / &mb::Cfg as parameter, std::fmt::Result / std::io::Result<()>; Qty<'m'> / Qty<'s'> (char const-generic arguments are spelled with apostrophes, like lifetimes); two 40-element tuple types of > 400 bytes of name that differ only in the middle) plus two lifetime "
         "re-spellings; EVERY ordered pair (target type i, replacement type j) through every macro form carrying a type (func! long form, "
         "func!(fn (f)(..) -> r), func!(func_info: ..), unsafe{}/extern forms, closure!, fake! with and without times), plus null target / "
-        "null replacement / typed+unchecked mixes per member, plus 20 async output-type pairs and 7 hand-written poll functions given to the checked async installer (only `fn() -> Poll<T>` with the right T fits; extra parameter, &mut parameter, unsafe, extern \"C\", other T, closure are refused). Structural equality is known by "
+        "null replacement / typed+unchecked mixes per member, plus 20 async output-type pairs and 7 hand-written poll functions given to the checked async installer (only `fn() -> Poll<T>` with the right T fits; extra parameter, &mut parameter, unsafe, extern \"C\", other T, closure are refused). After a well-typed pairing of two functions has been accepted, the same two addresses are presented again with other declared types (replacement / target declared unsafe, replacement / target untyped), twice each: still refused, and the well-typed pairing still accepted afterwards. Structural equality is known by "
         "construction. Oracle: accepted iff same class; a refusal is a 'Signature mismatch' or null-pointer panic, raised before any "
         "library mprotect / flush / executable mmap, with the target bytes unchanged. Lifetime-only pairs are run and reported, not judged. "
         "Additionally every arm of fake! (parsed from the source, one generated program per arm) is installed on a target declared with "
